@@ -154,8 +154,11 @@ func (e *env) flush(fs0 *FlushSpec) {
 		}
 	}
 	e.checkpoint(func() {
+		e.snapCache = e.implSnapshot()
+		e.snapCacheOK = e.snapCache != nil
 		e.compareStateAs("C08", "after-flush")
 		e.checkRefCounts("C08", "C03")
+		e.snapCacheOK = false
 		e.checkHooks()
 	})
 	e.modelStates[e.model.StateHash()] = true
@@ -227,6 +230,9 @@ func (e *env) resolveUnacked(s *session, prop string) {
 func implHas(s Snapshot, k Key) bool { _, ok := s[k]; return ok }
 
 func (e *env) implSnapshot() Snapshot {
+	if e.snapCacheOK {
+		return e.snapCache
+	}
 	rc, err := e.srv.VerifRIB().RIBContents()
 	if err != nil {
 		e.report("C01", "rib-contents-error", "RIBContents failed", err.Error(), false)
